@@ -19,20 +19,25 @@ const (
 
 func init() {
 	register(&PropSpec{
-		ID:          "C02",
-		Title:       "Only bytes matching their blobref, within the size cap, are ever accepted",
-		Explanation: "TODO",
+		ID:    "C02",
+		Title: "Only bytes matching their blobref, within the size cap, are ever accepted",
+		Explanation: "Decided (structural necessary conditions). Every rule looks in EFFECTIVE BODIES: a function with its literals plus, transitively (depth 4), the declared functions of the same package it calls statically or starts with go; a helper's parameter stands for the caller's argument, a call's result for the value the helper returns on its success returns, the facts of a call site hold inside the helper, and the facts common to all success returns of a helper (or all returns of a boolean helper with that result) hold in the caller where its error is known nil; 'call P succeeded before site Q' carries across calls when every return of each helper in between that may report success is dominated by the err==nil edge of the inner call. Code run from defer statements and deferred literals is not part of an effective body. " +
+			"R-entry — every non-test call of BlobReceiver.ReceiveBlob (any implementer, static or through an interface) and of blobserver.ReceiveNoHash is classified by computed acceptance idioms, judged in the effective body of the enclosing top-level function: inside the verified core (see R-core); delegation by a ReceiveBlob method of its own (ref, source) — the stream itself or a buffer filled by one checked, complete read of it and not touched since; the ref is blob.RefFromBytes/RefFromString of the very bytes/string/buffer/field that feed the reader; bytes hashed while read with HashMatches(ref)==true dominating; re-population from a checked Fetch of the same ref; a (ref,string) forwarding helper whose callers satisfy one of the idioms; or the destination's static type is a store whose own ReceiveBlob re-verifies the digest. Where no idiom applies in the function itself and it is a helper whose static callers can all be enumerated (never used as a value or through an interface, same package), the site is judged in the effective body of every caller (recursively, depth 3): all must establish an idiom. Anything else is a violation; ReceiveNoHash/ReceiveBlob taken as a function value is undecided. " +
+			"R-core — anchored at the two exported entry points blobserver.Receive and blobserver.ReceiveNoHash (not at internal helpers): the effective body of each contains exactly one backend ReceiveBlob call, on the entry point's own dst and ref; the reader handed to it is, on every feasible path (conditions on flag parameters bound to constants by the caller are evaluated), for Receive the hash-checking reader (a struct holding br.Hash() known non-nil, the same ref, and io.LimitReader/&io.LimitedReader of the entry point's src with MaxBlobSize) and for ReceiveNoHash at least that LimitReader; hub notification (BlobHub.NotifyBlobReceived, with the SizedRef the backend returned) and every nil-error return are dominated by success of the backend call; the helpers between the entry points and the backend call may be called only from the core, any other caller must itself satisfy the obligations of the verified entry point; in the Read method of the hash-checking reader type (found from the value, not by name) the bytes read are hashed before the comparison and the underlying error is returned unchanged only where it is known not to be EOF or HashMatches is known true. " +
+			"R-http — anchored at the exported constructors CreatePutUploadHandler and CreateBatchUploadHandler: in the PUT handler's effective body Receive is called on the constructor's storage with the parsed ref only under ContentLength<=MaxBlobSize, Parse ok and IsSupported; every path on which Receive's error may be non-nil writes an error status (followed upwards through helpers that pass the error on), a success status only under err==nil; the multipart handler lists in UploadResponse.Received only results of Receive whose success dominates the listing, and the error guarding the listing merges Receive's error with a non-nil error raised when the part's byte counter (limited to MaxBlobSize+1) reached the limit. " +
+			"R-commit — for every ReceiveBlob implementation, every commit point of its effective body (delegated receive, sorted.KeyValue Set/Delete/CommitBatch, VFS rename, store into a map reachable from the receiver, and a three-entry table of calls into other packages/third-party clients) is the call that consumes the source or is dominated by the err==nil edge of a complete read of it (io.Copy/ReadAll/ReadFrom/delegation, possibly inside a helper); the read error of a consumer is never discarded; a helper that is handed bytes as a reader other than the source stream and commits is checked like a receiver of its own; stores that compare the digest themselves commit only under HashMatches==true; every nil-error return follows a successful consumer (R-verdict; a return of a helper's error is replaced by the helper's own returns). " +
+			"NOT decided: that the hash functions compute the right digest; behaviour at exactly 16 MiB; fragmentation of readers; that opaque third-party upload calls (S3, Drive, Azure, GCS, mgo, the perkeep client) abort atomically when their body reader fails; aliasing beyond single-store locals, captured variables, parameter-to-argument binding and receiver-rooted field paths; callees mutating a buffer they were not passed; helpers of other packages, helpers reached through function values or interfaces (an HTTP handler turned into a type with a ServeHTTP method is not followed and would be reported), effective bodies deeper than 4 calls or larger than 400 frames; what deferred code and test-support packages do.",
 		RuleDocs: map[string]string{
-			"R-entry":   "TODO",
-			"R-core":    "TODO",
-			"R-http":    "TODO",
-			"R-commit":  "TODO",
-			"R-verdict": "TODO",
+			"R-entry":   "who-may-call: every call of BlobReceiver.ReceiveBlob / blobserver.ReceiveNoHash outside test support, classified by value-flow idioms over the effective body (delegation of own source, ref computed from the same bytes, hash-verified buffer, re-population from Fetch, re-verifying destination type, forwarding helper); a helper with enumerable callers is judged in each caller's effective body",
+			"R-core":    "the effective bodies of blobserver.Receive and ReceiveNoHash: one backend call on the own dst/ref, value chain of the reader handed to it on every feasible path, nil-hash guard, notification and success returns dominated by its success, who may call the shared helpers; Read of the hash-checking reader: EOF turned into ErrCorruptBlob unless the digest matches",
+			"R-http":    "PUT and multipart upload handlers (effective bodies of the exported constructors): guards dominating Receive, error status on every failing path, Received list built only from successful verified receives, oversize override",
+			"R-commit":  "every ReceiveBlob implementation: commit points of the effective body dominated by success of the call that consumes source; consumer errors not discarded; reader-taking commit helpers checked like receivers; re-verifying stores commit under HashMatches==true",
+			"R-verdict": "every ReceiveBlob implementation: a nil-error return (of the method or of the helper whose error it returns) is dominated by success of a call that consumed source (the digest/size verdict of blobserver.Receive reaches a backend only as that read error)",
 		},
 		Run:       runC02,
 		DesignRef: "DESIGN.md §4 C02",
-		Technique: "TODO",
-		LevelText: "TODO",
+		Technique: "static analysis: effective bodies (call-chain frames over same-package static callees with parameter/result binding, fact transfer and success summaries of helpers), type-resolved who-may-call with value-flow acceptance idioms, dominance on err==nil / HashMatches edges over go/ssa, forward taint of the source reader, path exploration for error responses",
+		LevelText: "Decides structural necessary conditions only: which code may hand bytes to a store without the hash check and why those bytes are the ones the ref was computed from; that the verified core wraps the size cap and the digest comparison and notifies only after success; that the HTTP handlers guard, report and list correctly on every CFG path; that every backend commits only after the read of source succeeded. The verdicts are invariant under extraction/inlining of same-package helpers, function splitting, closure-to-function conversion, renaming and the usual control-flow reshapings (the selftest holds 17 such behaviour-preserving variants that must stay silent). Does not decide digests, the 16 MiB boundary behaviour, reader fragmentation or atomicity of third-party uploads.",
 	})
 }
 
@@ -59,6 +64,7 @@ func runC02(p *Program, r *Reporter) {
 	x := &c02Ctx{p: p, r: r, reverify: map[*ssa.Function]int{}, k5seen: map[string]bool{}, trees: map[*ssa.Function]*c02Tree{},
 		impliesMemo: map[c02fc]c02verdict{}, core: map[*ssa.Function]bool{}, flagBad: map[string]string{}, hashReaders: map[*types.Named]bool{}}
 	c02NilRetMemo = map[*ssa.Function][]c02NilRet{}
+	defer func() { c02NilRetMemo = map[*ssa.Function][]c02NilRet{} }()
 	x.recv = p.Iface("pkg/blobserver", "BlobReceiver")
 	x.kv = p.Iface("pkg/sorted", "KeyValue")
 	x.vfs = p.Iface("pkg/blobserver/files", "VFS")
@@ -146,24 +152,6 @@ func c02EdgeFacts(pred, succ *ssa.BasicBlock) []CondFact {
 		}
 	}
 	return out
-}
-
-// c02Fact looks for a fact whose condition (after stripping negations) satisfies pred.
-func c02Fact(facts []CondFact, pred func(cond ssa.Value) bool) (known, val bool) {
-	for _, f := range facts {
-		cond, v := f.Cond, f.Val
-		for {
-			if u, ok := cond.(*ssa.UnOp); ok && u.Op == token.NOT {
-				cond, v = u.X, !v
-				continue
-			}
-			break
-		}
-		if pred(cond) || pred(originValue(cond)) {
-			return true, v
-		}
-	}
-	return false, false
 }
 
 // c02Incoming splits a value into (value, facts) pairs: one per phi edge, or
@@ -356,21 +344,16 @@ func c02CellVal(v ssa.Value) ssa.Value {
 	return out
 }
 
-// c02NilKnown is NilFact that also understands `x = f(); if x != nil` on a
-// variable whose address is taken elsewhere.
+// c02NilKnown reports what the facts at block b say about v being nil. Unlike
+// NilFact it never equates a phi with one of its operands: a test of a merged
+// error variable says something about an earlier error only through
+// c02NilClosure. It also understands `x = f(); if x != nil` on a variable
+// whose address is taken elsewhere.
 func c02NilKnown(b *ssa.BasicBlock, v ssa.Value) (known, isNil bool) {
-	if k, n := NilFact(b, v); k {
-		return k, n
-	}
-	for _, f := range FactsAt(b) {
-		cond, val := f.Cond, f.Val
-		for {
-			if u, ok := cond.(*ssa.UnOp); ok && u.Op == token.NOT {
-				cond, val = u.X, !val
-				continue
-			}
-			break
-		}
+	ov := originValue(v)
+	facts := FactsAt(b)
+	for _, f := range facts {
+		cond, val := c02StripNot(f.Cond, f.Val)
 		bo, ok := cond.(*ssa.BinOp)
 		if !ok || bo.Op != token.EQL && bo.Op != token.NEQ {
 			continue
@@ -383,26 +366,148 @@ func c02NilKnown(b *ssa.BasicBlock, v ssa.Value) (known, isNil bool) {
 		} else {
 			continue
 		}
-		if cv := c02CellVal(other); cv != nil && sameOrigin(cv, v) {
+		if other == v || originValue(other) == ov {
 			return true, (bo.Op == token.EQL) == val
+		}
+		if cv := c02CellVal(other); cv != nil && (cv == v || originValue(cv) == ov) {
+			return true, (bo.Op == token.EQL) == val
+		}
+	}
+	for _, nv := range c02NilClosure(facts, 0) {
+		if originValue(nv) == ov {
+			return true, true
+		}
+		if cv := c02CellVal(nv); cv != nil && originValue(cv) == ov {
+			return true, true
 		}
 	}
 	return false, false
 }
 
+// c02NilTested: the fact (cond==val) says that a value is nil; returns that value.
+func c02NilTested(cond ssa.Value, val bool) ssa.Value {
+	for {
+		if u, ok := cond.(*ssa.UnOp); ok && u.Op == token.NOT {
+			cond, val = u.X, !val
+			continue
+		}
+		break
+	}
+	bo, ok := cond.(*ssa.BinOp)
+	if !ok || bo.Op != token.EQL && bo.Op != token.NEQ {
+		return nil
+	}
+	var other ssa.Value
+	switch {
+	case IsNilConst(bo.Y):
+		other = bo.X
+	case IsNilConst(bo.X):
+		other = bo.Y
+	default:
+		return nil
+	}
+	if (bo.Op == token.EQL) != val {
+		return nil
+	}
+	return other
+}
+
+// c02NilClosure lists the values known nil under the facts, following phis
+// backwards: a phi that is nil arrived over an edge whose operand may be nil
+// (an edge whose own condition says the operand is non-nil, or whose operand
+// is a fresh error, is excluded); what holds on all remaining edges holds too.
+// This is how `err := f(); if err == nil { err = g() }; if err != nil { return }`
+// yields "f's error is nil" after the check.
+func c02NilClosure(facts []CondFact, depth int) []ssa.Value {
+	var out []ssa.Value
+	for _, f := range facts {
+		if v := c02NilTested(f.Cond, f.Val); v != nil {
+			out = append(out, v)
+			out = append(out, c02PhiNil(v, depth)...)
+		}
+	}
+	return out
+}
+
+func c02PhiNil(v ssa.Value, depth int) []ssa.Value {
+	ph, ok := originValue(v).(*ssa.Phi)
+	if !ok || depth > 4 {
+		return nil
+	}
+	var sets [][]ssa.Value
+	for i, e := range ph.Edges {
+		if isNonNilErrorExpr(e) {
+			continue
+		}
+		ef := c02EdgeFacts(ph.Block().Preds[i], ph.Block())
+		nonNil := false
+		for _, f := range ef {
+			cond, val := c02StripNot(f.Cond, f.Val)
+			bo, ok := cond.(*ssa.BinOp)
+			if !ok || bo.Op != token.EQL && bo.Op != token.NEQ {
+				continue
+			}
+			var other ssa.Value
+			switch {
+			case IsNilConst(bo.Y):
+				other = bo.X
+			case IsNilConst(bo.X):
+				other = bo.Y
+			default:
+				continue
+			}
+			if originValue(other) == originValue(e) && (bo.Op == token.EQL) != val {
+				nonNil = true
+			}
+		}
+		if nonNil {
+			continue
+		}
+		set := append([]ssa.Value{e}, c02PhiNil(e, depth+1)...)
+		set = append(set, c02NilClosure(ef, depth+1)...)
+		sets = append(sets, set)
+	}
+	if len(sets) == 0 {
+		return nil
+	}
+	var out []ssa.Value
+	for _, a := range sets[0] {
+		inAll := true
+		for _, s := range sets[1:] {
+			found := false
+			for _, b := range s {
+				if originValue(a) == originValue(b) {
+					found = true
+					break
+				}
+			}
+			if !found {
+				inAll = false
+				break
+			}
+		}
+		if inAll {
+			out = append(out, a)
+		}
+	}
+	return out
+}
+
 func c02SuccessDominates(c *ssa.Call, s ssa.Instruction) (bool, string) {
-	ok, why := SuccessDominates(c, s)
-	if ok || !Precedes(c, s) {
-		return ok, why
+	if !Precedes(c, s) {
+		return false, "call does not dominate the site"
 	}
 	ev, hasErr, disc := ErrValue(c)
-	if !hasErr || disc {
-		return ok, why
+	if !hasErr {
+		return true, ""
+	}
+	if disc {
+		return false, "error result of the call is discarded"
 	}
 	if k, isNil := c02NilKnown(s.Block(), ev); k && isNil {
 		return true, ""
 	}
-	return false, why
+	return false, "site is not on the err==nil edge of the call"
 }
 
 func c02IsBytesBufferPtr(t types.Type) bool {
@@ -527,9 +632,9 @@ const (
 type c02Frame struct {
 	fn     *ssa.Function
 	parent *c02Frame
-	site   *ssa.Call // the call (in parent.fn or one of its literals) that enters fn
+	site   ssa.CallInstruction // the call or go statement (in parent.fn or one of its literals) that enters fn
 	depth  int
-	kids   map[*ssa.Call]*c02Frame
+	kids   map[ssa.Instruction]*c02Frame
 	tree   *c02Tree
 }
 
@@ -611,7 +716,7 @@ func (x *c02Ctx) tree(root *ssa.Function) *c02Tree {
 	}
 	t := &c02Tree{x: x, factMemo: map[c02fb][]c02EF{}, retFacts: map[*c02Frame][]c02EF{}, retBool: map[c02fbool][]c02EF{},
 		retVals: map[c02fi]*c02LV{}, busy: map[c02fi]bool{}}
-	t.root = &c02Frame{fn: root, kids: map[*ssa.Call]*c02Frame{}, tree: t}
+	t.root = &c02Frame{fn: root, kids: map[ssa.Instruction]*c02Frame{}, tree: t}
 	x.trees[root] = t
 	queue := []*c02Frame{t.root}
 	made := 1
@@ -622,12 +727,20 @@ func (x *c02Ctx) tree(root *ssa.Function) *c02Tree {
 		if f.depth >= c02MaxDepth {
 			continue
 		}
-		c02AllInstrs(f.fn, func(_ *ssa.Function, in ssa.Instruction) {
-			call, ok := in.(*ssa.Call)
+		c02AllInstrs(f.fn, func(lit *ssa.Function, in ssa.Instruction) {
+			call, ok := in.(ssa.CallInstruction)
 			if !ok {
 				return
 			}
-			callee := call.Call.StaticCallee()
+			if _, isDefer := in.(*ssa.Defer); isDefer {
+				return // runs at exit: not at this place of the body
+			}
+			for l := lit; l != nil && l != f.fn; l = l.Parent() {
+				if c02DeferredLiteral(l) {
+					return // inside a deferred literal: likewise
+				}
+			}
+			callee := call.Common().StaticCallee()
 			if !x.isHelper(root, callee) {
 				return
 			}
@@ -641,12 +754,26 @@ func (x *c02Ctx) tree(root *ssa.Function) *c02Tree {
 				return
 			}
 			made++
-			k := &c02Frame{fn: callee, parent: f, site: call, depth: f.depth + 1, kids: map[*ssa.Call]*c02Frame{}, tree: t}
-			f.kids[call] = k
+			k := &c02Frame{fn: callee, parent: f, site: call, depth: f.depth + 1, kids: map[ssa.Instruction]*c02Frame{}, tree: t}
+			f.kids[in] = k
 			queue = append(queue, k)
 		})
 	}
 	return t
+}
+
+// c02DeferredLiteral: every start of literal l is a defer statement.
+func c02DeferredLiteral(l *ssa.Function) bool {
+	anchors := c02LiteralAnchors(l)
+	if len(anchors) == 0 {
+		return false
+	}
+	for _, a := range anchors {
+		if _, ok := a.(*ssa.Defer); !ok {
+			return false
+		}
+	}
+	return true
 }
 
 // each visits every instruction of the effective body (literals included).
@@ -671,14 +798,9 @@ func (t *c02Tree) under(k *c02Frame) []*c02Frame {
 }
 
 // kidOf returns the frame a call instruction enters, if it calls a helper.
-func (f *c02Frame) kidOf(in ssa.Instruction) *c02Frame {
-	if call, ok := in.(*ssa.Call); ok {
-		return f.kids[call]
-	}
-	return nil
-}
+func (f *c02Frame) kidOf(in ssa.Instruction) *c02Frame { return f.kids[in] }
 
-func (f *c02Frame) args() []ssa.Value { return f.site.Call.Args }
+func (f *c02Frame) args() []ssa.Value { return f.site.Common().Args }
 
 // chain names the helpers between the root and f ("" for the root).
 func (f *c02Frame) chain() string {
@@ -952,6 +1074,45 @@ func (t *c02Tree) same(fa *c02Frame, a ssa.Value, fb *c02Frame, b ssa.Value) boo
 		}
 	}
 	return false
+}
+
+// limited: v is io.LimitReader(src, n) or &io.LimitedReader{R: src, N: n}.
+func (t *c02Tree) limited(f *c02Frame, v ssa.Value) (src c02LV, n int64, ok bool) {
+	lv := t.origin(f, v)
+	if c, isCall := c02AsCall(lv.V); isCall && c.IsStatic("io", "", "LimitReader") {
+		n, ok = t.constInt(lv.F, c.Args()[1])
+		return t.origin(lv.F, c.Args()[0]), n, ok
+	}
+	al, isAl := lv.V.(*ssa.Alloc)
+	if !isAl || !IsNamed(al.Type(), "io", "LimitedReader") || al.Referrers() == nil {
+		return c02LV{}, 0, false
+	}
+	okR, okN := false, false
+	for _, u := range *al.Referrers() {
+		fa, isFA := u.(*ssa.FieldAddr)
+		if !isFA || fa.Referrers() == nil {
+			continue
+		}
+		for _, uu := range *fa.Referrers() {
+			st, isSt := uu.(*ssa.Store)
+			if !isSt || st.Addr != ssa.Value(fa) {
+				continue
+			}
+			switch fieldName(fa.X.Type(), fa.Field) {
+			case "R":
+				if okR {
+					return c02LV{}, 0, false
+				}
+				src, okR = t.origin(lv.F, st.Val), true
+			case "N":
+				if okN {
+					return c02LV{}, 0, false
+				}
+				n, okN = t.constInt(lv.F, st.Val)
+			}
+		}
+	}
+	return src, n, okR && okN
 }
 
 func (t *c02Tree) constInt(f *c02Frame, v ssa.Value) (int64, bool) {
@@ -1232,17 +1393,7 @@ func (t *c02Tree) facts(f *c02Frame, b *ssa.BasicBlock) []c02EF {
 	return out
 }
 
-// edgeFacts: facts known when control flows from pred to succ in frame f.
-func (t *c02Tree) edgeFacts(f *c02Frame, pred, succ *ssa.BasicBlock) []c02EF {
-	out := append([]c02EF(nil), t.facts(f, pred)...)
-	local := c02EdgeFacts(pred, succ)
-	if n := len(FactsAt(pred)); len(local) > n {
-		out = append(out, t.expand(f, local[n:])...)
-	}
-	return out
-}
-
-// fact looks for a fact whose condition (negations stripped, also through
+// c02FactE looks for a fact whose condition (negations stripped, also through
 // originValue) satisfies pred.
 func c02FactE(facts []c02EF, pred func(f *c02Frame, cond ssa.Value) bool) (known, val bool) {
 	for _, ef := range facts {
@@ -1254,7 +1405,7 @@ func c02FactE(facts []c02EF, pred func(f *c02Frame, cond ssa.Value) bool) (known
 	return false, false
 }
 
-// boolCallFact: a call satisfying pred is known to have returned val.
+// c02BoolCallFactE: a call satisfying pred is known to have returned val.
 func c02BoolCallFactE(facts []c02EF, pred func(f *c02Frame, c CallSite) bool) (known, val bool, at c02Loc) {
 	for _, ef := range facts {
 		cond, v := c02StripNot(ef.Cond, ef.Val)
@@ -1298,7 +1449,8 @@ func (t *c02Tree) nilKnown(facts []c02EF, fv *c02Frame, v ssa.Value) (known, isN
 		default:
 			continue
 		}
-		if cv := c02CellVal(other); cv != nil && t.same(ef.F, cv, fv, v) || t.same(ef.F, other, fv, v) {
+		tv := t.origin(fv, v)
+		if cv := c02CellVal(other); cv != nil && t.origin(ef.F, cv) == tv || t.origin(ef.F, other) == tv {
 			return true, (bo.Op == token.EQL) == val
 		}
 	}
@@ -1345,11 +1497,32 @@ func (t *c02Tree) incoming(f *c02Frame, v ssa.Value, at *ssa.BasicBlock, extra [
 			}
 			if call != nil {
 				if k := f.kids[call]; k != nil {
+					// where the caller knows the helper's error to be nil, only its success returns matter
+					succeeded := false
+					if ei := ErrResultIndex(k.fn); ei >= 0 && ei != ri {
+						for _, ef := range facts {
+							if ef.F == f && c02NilAsserted(ef.Cond, ef.Val) == call {
+								succeeded = true
+							}
+						}
+					}
 					n := 0
-					for _, r := range Returns(k.fn) {
-						if ri < len(r.Results) {
-							n++
-							out = append(out, t.incoming(k, r.Results[ri], r.Ret.Block(), facts, depth+1)...)
+					if succeeded {
+						for _, nr := range c02NilReturns(k.fn) {
+							if ri < len(nr.Results) {
+								n++
+								for _, sub := range t.incoming(k, nr.Results[ri], nr.From, facts, depth+1) {
+									sub.Facts = append(sub.Facts, t.expand(k, nr.Facts)...)
+									out = append(out, sub)
+								}
+							}
+						}
+					} else {
+						for _, r := range Returns(k.fn) {
+							if ri < len(r.Results) {
+								n++
+								out = append(out, t.incoming(k, r.Results[ri], r.Ret.Block(), facts, depth+1)...)
+							}
 						}
 					}
 					if n > 0 {
@@ -1421,7 +1594,11 @@ func (t *c02Tree) succDom(pf *c02Frame, pc *ssa.Call, qf *c02Frame, q ssa.Instru
 		if ok, why := t.x.implies(f.fn, cur); !ok {
 			return false, why
 		}
-		cur, f = f.site, f.parent
+		sc, isCall := f.site.(*ssa.Call)
+		if !isCall {
+			return false, "the call runs in a goroutine of its own"
+		}
+		cur, f = sc, f.parent
 	}
 	if ssa.Instruction(cur) == qa {
 		return false, "the site is inside the call"
@@ -1435,6 +1612,9 @@ func (t *c02Tree) prec(af *c02Frame, a ssa.Instruction, bf *c02Frame, b ssa.Inst
 	ba := c02LiftTo(bf, b, l)
 	cur, f := a, af
 	for f != l {
+		if _, isCall := f.site.(*ssa.Call); !isCall {
+			return false
+		}
 		for _, ri := range Returns(f.fn) {
 			if !c02Prec(cur, ri.Ret) {
 				return false
@@ -1609,13 +1789,8 @@ func (x *c02Ctx) coreEntry(E *ssa.Function, verified bool, report c02Report, rec
 		"the backend call receives on the dst and under the ref that were passed in", "dst.ReceiveBlob is not called on the entry point's own dst with its own ref")
 
 	isLimited := func(f *c02Frame, v ssa.Value) bool {
-		lv := t.origin(f, v)
-		c, ok := c02AsCall(lv.V)
-		if !ok || !c.IsStatic("io", "", "LimitReader") {
-			return false
-		}
-		n, ok := t.constInt(lv.F, c.Args()[1])
-		return ok && n == x.maxBlob && t.origin(lv.F, c.Args()[0]) == (c02LV{root, src})
+		from, n, ok := t.limited(f, v)
+		return ok && n == x.maxBlob && from == (c02LV{root, src})
 	}
 	bad := ""
 	nin := 0
@@ -2095,7 +2270,12 @@ func (x *c02Ctx) httpPut() {
 		if !passesOn {
 			break
 		}
-		f, call = f.parent, f.site
+		sc, isCall := f.site.(*ssa.Call)
+		if !isCall {
+			badLeak = "the helper that passes Receive's error on runs in a goroutine of its own"
+			break
+		}
+		f, call = f.parent, sc
 	}
 	r.Check(badStatus == "", rule, key+"#success-status", site, "a non-error status is written only on the err==nil edge of Receive", badStatus)
 	r.Check(badLeak == "", rule, key+"#error-status", site, "every path on which Receive's error may be non-nil writes an error response before returning", badLeak)
@@ -2321,11 +2501,8 @@ func (x *c02Ctx) countsReceive(t *c02Tree, cf *c02Frame, cell ssa.Value, limit i
 			case "N":
 				okN = t.origin(lv.F, st.Val) == t.origin(cf, cell)
 			case "Reader":
-				sv := t.origin(lv.F, st.Val)
-				if lc, ok := c02AsCall(sv.V); ok && lc.IsStatic("io", "", "LimitReader") {
-					n, okc := t.constInt(sv.F, lc.Args()[1])
-					okR = okc && n == limit
-				}
+				_, n, okc := t.limited(lv.F, st.Val)
+				okR = okc && n == limit
 			}
 		}
 	}
@@ -3597,7 +3774,7 @@ func c02ParamIndex(p *ssa.Parameter) int {
 // literals) in the effective body of root, which reaches S through the calls
 // of path (outermost first). When no idiom applies there and root is a helper
 // all of whose static callers can be enumerated, every caller is judged in turn.
-func (x *c02Ctx) classifyUp(root *ssa.Function, path []*ssa.Call, c CallSite, dst, ref, rd ssa.Value, depth int) (idiom, detail string, ok bool) {
+func (x *c02Ctx) classifyUp(root *ssa.Function, path []ssa.CallInstruction, c CallSite, dst, ref, rd ssa.Value, depth int) (idiom, detail string, ok bool) {
 	t := x.tree(root)
 	f := t.root
 	for _, call := range path {
@@ -3622,11 +3799,10 @@ func (x *c02Ctx) classifyUp(root *ssa.Function, path []*ssa.Call, c CallSite, ds
 		return
 	}
 	for _, cc := range callers {
-		cv := cc.Value()
-		if cv == nil || TopFunc(cc.Fn).Pkg != root.Pkg {
-			return "", detail + "; and its caller " + FuncKey(cc.Fn) + " cannot be followed (go/defer, or another package)", false
+		if cc.IsDefer() || TopFunc(cc.Fn).Pkg != root.Pkg {
+			return "", detail + "; and its caller " + FuncKey(cc.Fn) + " cannot be followed (deferred, or another package)", false
 		}
-		_, d2, ok2 := x.classifyUp(TopFunc(cc.Fn), append([]*ssa.Call{cv}, path...), c, dst, ref, rd, depth+1)
+		_, d2, ok2 := x.classifyUp(TopFunc(cc.Fn), append([]ssa.CallInstruction{cc.Instr}, path...), c, dst, ref, rd, depth+1)
 		if !ok2 {
 			return "", detail + "; judged in its caller " + FuncKey(cc.Fn) + ": " + d2, false
 		}
@@ -3722,9 +3898,9 @@ func c02RuleEntry(x *c02Ctx) {
 				cconstruct := FuncKey(cc.Fn) + "#calls:" + FuncKey(fn)
 				ct := x.tree(ctop)
 				ok, why := x.sameBytes(ct, ct.root, cas[ri], ct.root, cas[di], c02Loc{ct.root, cc.Instr})
-				if !ok && cc.Value() != nil {
+				if !ok && !cc.IsDefer() {
 					// any other idiom, judged with the helper as part of the caller's effective body
-					if id2, d2, ok2 := x.classifyUp(ctop, []*ssa.Call{cc.Value()}, c, dst, ref, rd, 1); ok2 {
+					if id2, d2, ok2 := x.classifyUp(ctop, []ssa.CallInstruction{cc.Instr}, c, dst, ref, rd, 1); ok2 {
 						ok, why = true, id2+": "+d2
 					}
 				}
@@ -3734,7 +3910,7 @@ func c02RuleEntry(x *c02Ctx) {
 		}
 	}
 	r.Analysed("unverified_handover_sites", nsites)
-	r.Floor(rule, 23)
+	r.Floor(rule, 20) // 24 sites today; merging two hand-overs of one function into a loop, or inlining a forwarding helper, legitimately lowers the count
 }
 
 // c02StablePath renders a destination for a construct key without SSA register names.
